@@ -13,7 +13,7 @@ from typing import Optional, Union
 from .graphtage import BoolNode, BuildOptions, DictNode, Filetype, FixedKeyDictNode, \
     FloatNode, IntegerNode, KeyValuePairNode, LeafNode, ListNode, NullNode, StringFormatter, StringNode
 from .printer import DEFAULT_PRINTER, Fore, Printer
-from .sequences import SequenceFormatter
+from .sequences import SequenceFormatter, SequenceNode
 from .tree import ContainerNode, GraphtageFormatter, TreeNode
 
 
@@ -104,18 +104,21 @@ class JSONListFormatter(SequenceFormatter):
         """
         super().print_SequenceNode(*args, **kwargs)
 
-    def print_SequenceNode(self, *args, **kwargs):
+    def print_SequenceNode(self, printer: Printer, node: SequenceNode):
         """Prints a non-List sequence.
 
-        This delegates to the parent formatter's implementation::
+        This delegates to the parent formatter's implementation for the node::
 
-            self.parent.print(*args, **kwargs)
+            self.parent.get_formatter(node)(printer, node)
 
-        which should invoke :meth:`JSONFormatter.print`, thereby delegating to the :class:`JSONDictFormatter` in
-        instances where a list contains a dict.
+        which should resolve to the :class:`JSONDictFormatter` in instances where a list contains a dict.
+
+        Note that this must not call `self.parent.print(printer, node)`, because that would apply the node's own
+        edit again, even if we were asked to print the node *without* its edits (*e.g.*, by
+        :meth:`graphtage.Replace.print`), and the edit would be printed twice.
 
         """
-        self.parent.print(*args, **kwargs)
+        self.parent.get_formatter(node)(printer, node)
 
 
 class JSONDictFormatter(SequenceFormatter):
@@ -149,18 +152,18 @@ class JSONDictFormatter(SequenceFormatter):
         """
         super().print_SequenceNode(*args, **kwargs)
 
-    def print_SequenceNode(self, *args, **kwargs):
+    def print_SequenceNode(self, printer: Printer, node: SequenceNode):
         """Prints a non-Dict sequence.
 
-        This delegates to the parent formatter's implementation::
+        This delegates to the parent formatter's implementation for the node::
 
-            self.parent.print(*args, **kwargs)
+            self.parent.get_formatter(node)(printer, node)
 
-        which should invoke :meth:`JSONFormatter.print`, thereby delegating to the :class:`JSONListFormatter` in
-        instances where a dict contains a list.
+        which should resolve to the :class:`JSONListFormatter` in instances where a dict contains a list.
+        See :meth:`JSONListFormatter.print_SequenceNode` for why this does not call `self.parent.print`.
 
         """
-        self.parent.print(*args, **kwargs)
+        self.parent.get_formatter(node)(printer, node)
 
 
 class JSONStringFormatter(StringFormatter):
